@@ -394,6 +394,54 @@ def handleInv (kv : List (String × String)) (impl : String) : String × String 
       | none => s!"fail:crash:unparsable observation {impl.take 120}"
     (m, v)
 
+/-! k=shootstress -/
+
+/-- `k=shootstress`: g instances x n shots through `BaseGun.Shoot` with a stub client, cycling through `paths` paths (path k:
+`/s<k mod 7>/t<k mod 5>/x<k>`, ammo tag "" for even k and "T" for odd k, answered with status 200+k). The observation
+lists, per path, the distinct (tag, proto, net) triples its samples carried: the model says exactly one. -/
+def handleShootStress (kv : List (String × String)) (impl : String) : String × String :=
+  let g := (getN? kv "g").getD 0
+  let n := (getN? kv "n").getD 0
+  let paths := (getN? kv "paths").getD 0
+  let cfg : AutoTagCfg := { enabled := getS kv "auto" == "1", uriElements := (getN? kv "el").getD 0, noTagOnly := getS kv "nto" == "1" }
+  let pathOf (k : Nat) : String := s!"/s{k % 7}/t{k % 5}/x{k}"
+  let tagOf (k : Nat) : String := if k % 2 == 0 then "" else "T"
+  let total := g * n
+  let modelParts := (List.range paths).map fun k =>
+    let shot : HttpShot := { ammoTag := tagOf k, id := 0, path := pathOf k, outcome := .response (200 + k) none }
+    let vs := (shootHttp cfg shot).reports.map fun s => s!"{hexOf s.tags}:{s.proto}:{s.net}"
+    s!"{k}=" ++ String.intercalate "/" vs
+  let m := s!"res=ok count={total} distinct={total} stray=0 p=" ++ String.intercalate ";" modelParts
+  let ikv := parseKV impl
+  let v :=
+    if getS ikv "res" != "ok" then s!"fail:run:{getS ikv "res"}"
+    else match getN? ikv "count", getN? ikv "distinct", getN? ikv "stray" with
+      | some c, some d, some stray =>
+        if c != total then s!"fail:count:{c} samples for {total} requests"
+        else if stray != 0 then s!"fail:proto:{stray} samples carry a status no request was answered with"
+        else if d != c then s!"fail:ids:{c} samples carry only {d} distinct ids"
+        else
+          let verdicts := (splitList (getS ikv "p") ";").map fun part =>
+            match part.splitOn "=" with
+            | [ks, vs] =>
+              match ks.toNat? with
+              | none => "fail:crash:unparsable path entry"
+              | some k =>
+                let exp := Spec.C10.expectedTag cfg.enabled cfg.uriElements cfg.noTagOnly (tagOf k) (pathOf k)
+                if vs == "" then s!"fail:count:no sample for path {pathOf k}"
+                else firstFail ((vs.splitOn "/").map fun v =>
+                  match v.splitOn ":" with
+                  | [t, p, e] =>
+                    match unhex t, p.toNat?, e.toNat? with
+                    | some tg, some pc, some ne =>
+                      Spec.C10.judgeHttp exp (.received (200 + k)) [{ tags := tg, id := 0, proto := pc, net := ne }]
+                    | _, _, _ => "fail:crash:unparsable sample"
+                  | _ => "fail:crash:unparsable sample")
+            | _ => "fail:crash:unparsable path entry"
+          firstFail verdicts
+      | _, _, _ => s!"fail:crash:unparsable observation {impl.take 120}"
+  (m, v)
+
 /-- the observation shows that the MACHINE ran out of a resource (ports, descriptors) while the case ran — other checks
 share the host. Nothing about pandora can be concluded from such a case. -/
 def envTrouble (impl : String) : Bool :=
@@ -414,6 +462,7 @@ def handle : Handler := fun input impl =>
   | "grpcdirect" => handleGrpcDirect kv impl
   | "ids" => handleIds kv impl
   | "idstress" => handleIds kv impl
+  | "shootstress" => handleShootStress kv impl
   | "errno" => handleErrno kv impl
   | "inv" => handleInv kv impl
   | _ => ("-", "fail:driver:unknown case kind")
